@@ -27,7 +27,7 @@ BOUND = {
     "thorough": "L(5,3) x every question position x 11 types x 22 tokens; L(5,3) x ordered trigger pairs x 3 target types x calc/no-calc x 2 trigger types",
 }
 # as-built additions to the bound (kept next to BOUND so that the evidence reports them)
-BOUND = {k: v + "; plus: " + "12 kinds of thing a trigger cell can name (visible, hidden and metadata questions, sections, several references) x 3 target types; selects with a default / trigger inside a table-list group (helper nodes get nothing); select defaults naming a choice that looks like arithmetic (65-plus); a namesake of the question in another group/repeat (before/after) with a default of the other kind, 6 token pairs; triggered calculations spelled yes/false/TRUE/true(); 4 function/reference-then-minus tokens; one name deviation: the question's name extends another node's name (<name>_count, <name>x)" for k, v in BOUND.items()}
+BOUND = {k: v + "; plus: " + "included sections (sections API) holding triggers / defaults, at top level and inside a group / repeat; 12 kinds of thing a trigger cell can name (visible, hidden and metadata questions, sections, several references) x 3 target types; selects with a default / trigger inside a table-list group (helper nodes get nothing); select defaults naming a choice that looks like arithmetic (65-plus); a namesake of the question in another group/repeat (before/after) with a default of the other kind, 6 token pairs; triggered calculations spelled yes/false/TRUE/true(); 4 function/reference-then-minus tokens; one name deviation: the question's name extends another node's name (<name>_count, <name>x)" for k, v in BOUND.items()}
 NAMES = ["a", "b", "c", "d", "e", "f"]
 TYPES = ["text", "integer", "decimal", "date", "time", "dateTime", "select_one c", "geopoint", "image", "calculate", "note"]
 # token -> classification: 's' static, 'd' dynamic, '?' ambiguous
@@ -64,6 +64,10 @@ def gen_tablelist():
     for src in ("text", "select_one c", "note", "hidden", "today", "deviceid", "calculate", "group", "repeat", "two-refs", "ref-with-text", "start-geopoint"):
         for tgt in ("calculate", "text", "background-geopoint"):
             yield {"k": "trigsrc", "src": src, "tgt": tgt}
+    # the sections / include API: triggers and defaults inside an included section, at top level and inside a group / repeat
+    for place in ("top", "group", "repeat"):
+        for inner in ("trigger-calc", "trigger-geopoint", "dynamic-default", "static-default", "trigger-to-outer"):
+            yield {"k": "include", "place": place, "inner": inner}
     # a select whose default is a choice name that looks like arithmetic
     for name in ("65-plus", "1-a", "a-b", "18-64", "x+y"):
         for ty in ("select_one d", "select_multiple d"):
@@ -241,6 +245,69 @@ def check_trigsrc(case):
     return {"outcome": "trigger-ok", "nt": not viol, "viol": viol, "tr": len(rows)}
 
 
+def check_include(case):
+    import copy
+
+    from pyxform.builder import create_survey
+    from pyxform.errors import PyXFormError
+
+    inner = case["inner"]
+    sec = [{"type": "text", "name": "sa", "label": "SA"}]
+    trig_ref, target = "/data/sa", "sx"
+    if inner == "trigger-calc":
+        sec.append({"type": "calculate", "name": "sx", "trigger": "${sa}", "bind": {"calculate": "1 + 1"}})
+    elif inner == "trigger-geopoint":
+        sec.append({"type": "background-geopoint", "name": "sx", "trigger": "${sa}"})
+    elif inner == "dynamic-default":
+        sec.append({"type": "text", "name": "sx", "label": "SX", "default": "now()"})
+    elif inner == "static-default":
+        sec.append({"type": "text", "name": "sx", "label": "SX", "default": "abc"})
+    else:
+        sec.append({"type": "calculate", "name": "sx", "trigger": "${t0}", "bind": {"calculate": "1 + 1"}})
+    inc = {"type": "include", "name": "sec"}
+    kids = [{"type": "text", "name": "t0", "label": "T0"}, {"type": "calculate", "name": "own", "trigger": "${t0}", "bind": {"calculate": "2 + 2"}}]
+    base = "/data"
+    if case["place"] == "top":
+        kids.append(inc)
+    else:
+        kids.append({"type": case["place"], "name": "w", "label": "W", "children": [inc]})
+        base = "/data/w"
+    main = {"type": "survey", "name": "data", "id_string": "data", "title": "data", "children": kids}
+    try:
+        sv = create_survey(name_of_main_section="data", sections=copy.deepcopy({"data": main, "sec": {"type": "survey", "name": "sec", "children": sec}}))
+        x = sv.to_xml(validate=False, pretty_print=False)
+    except PyXFormError as e:
+        return {"outcome": "reject", "nt": False, "viol": [], "tr": 5, "unexp": True, "why": str(e)[:160]}
+    except Exception as e:  # noqa: BLE001
+        return {"outcome": "crash", "nt": False, "viol": [(f"include:internal-exception:{type(e).__name__}", str(e)[:160])], "tr": 5}
+    obs = O.Obs(x)
+    acts = all_setvalues(obs)
+    viol = []
+    px = f"{base}/sx"
+    mine = [(el, par) for el, par, tag in acts if el.get("ref") == px]
+    own = [el for el, par, tag in acts if el.get("ref") == "/data/own"]
+    if len(own) != 1:
+        viol.append(("include:outer-trigger-action-count", f"{len(own)} actions for /data/own"))
+    node_ = obs.paths.get(px)
+    text = (node_.text or "") if node_ is not None else None
+    in_rep = case["place"] == "repeat"
+    if inner == "static-default":
+        if text != "abc" or mine:
+            viol.append(("include:static-default-not-exactly-once", f"text={text!r} actions={len(mine)}"))
+    else:
+        if text not in ("",) or len(mine) != 1:
+            viol.append((f"include:action-not-exactly-once:{inner}", f"text={text!r} actions={len(mine)} for {px}"))
+        elif inner.startswith("trigger"):
+            want_par = "/data/t0" if inner == "trigger-to-outer" else f"{base}/sa"
+            par = mine[0][1]
+            if par == "model" or par is None or par.get("ref") != want_par:
+                viol.append((f"include:action-not-nested-in-trigger-control:{inner}", f"expected inside {want_par}"))
+    b = obs.bind_map().get(px, [None])[0]
+    if inner.startswith("trigger") and b is not None and b.get("calculate") is not None:
+        viol.append(("include:triggered-calculation-also-on-bind", b.get("calculate")))
+    return {"outcome": "trigger-ok" if inner.startswith("trigger") else ("dynamic-repeat" if in_rep and inner == "dynamic-default" else "static"), "nt": not viol, "viol": viol, "tr": 5}
+
+
 def check_special(case):
     rows = [{"type": "text", "name": "t0", "label": "T0"}]
     if case["k"] == "tablelist":
@@ -298,6 +365,8 @@ def check_special(case):
 def check_one(case):
     if case["k"] == "trigsrc":
         return check_trigsrc(case)
+    if case["k"] == "include":
+        return check_include(case)
     if case["k"] in ("tablelist", "choicedefault"):
         return check_special(case)
     wb, nodes = build(case)
